@@ -11,7 +11,7 @@ CHECKS = {
          "DESIGN.md section 3, C17"),
  "C06": ("exploration",
          "exhaustive enumeration of configurations (enable x disable lists <=2 keys x enable-all) against an executable specification, on the real selection code of three front-ends",
-         "Complete enumeration of enable-list x disable-list (all lists of <=2 keys, flag absent, explicit empty) x enable-all over a key alphabet that realises all 32 combinations of the five deciding booleans for every checker, executed on the real initCheckers of cmd/go-critic and cmd/gocritic (driven in-process through an overlay-added RPC file that calls the unexported bind/parse/assign/init steps) and on the real analyzer filter (public Flags + Run); 8 probe checkers registered through the public AddChecker (one per tag set incl. security) observe constructor calls and diagnostic attribution; every (representative in quick, every in thorough) registered checker x 32 combinations on the full registry; the four real binaries with real flag parsing on a workspace (-v / -debug-init 'is enabled' lines, exit status).",
+         "Complete enumeration of enable-list x disable-list (all lists of <=2 keys, flag absent, explicit empty) x enable-all over a key alphabet that realises all 32 combinations of the five deciding booleans for every checker, executed on the real initCheckers of cmd/go-critic and cmd/gocritic (driven in-process through an overlay-added RPC file that calls the unexported bind/parse/assign/init steps) and on the real analyzer filter (public Flags + Run); 8 probe checkers registered through the public AddChecker (one per tag set incl. security) observe constructor calls and diagnostic attribution; every (representative in quick, every in thorough) registered checker x 32 combinations on the full registry; the four real binaries with real flag parsing on a workspace (-v / -debug-init 'is enabled' lines, exit status). Added legs: no checker appears twice in the selected list; for three selections and every registered parameter x small value domain, a parameter flag of a checker that is not selected leaves error state, selection and constructor calls unchanged on all three front-ends.",
          "Oracle = the rule exactly as the property states it. Entries with surrounding blanks are outside the alphabet. The generated-documentation leg (default marks) is decided in C17.",
          "DESIGN.md section 3, C06"),
  "C01": ("exploration",
@@ -42,7 +42,7 @@ CHECKS = {
  "C05": ("exploration",
          "bounded-exhaustive program enumeration x all checkers with a reflection-based deep fingerprint of tree, type info, context and registry around every checker run, plus forward/reverse checker order on pristine trees",
          "For every program of the corpus (examples, odd-syntax and build-constraint files, 1-deviation mutants, shadow family) the complete *ast.File graph (every field of every node, positions, slice backing arrays, comments, Obj/Scope), every types.Info map, every linter.Context field and the registered metadata/parameter values are hashed by reflection before and after checker runs (after every single checker for the example files; around the whole set with per-checker bisection otherwise); any difference is a write. Second leg: each program is analysed on two freshly parsed trees with the checker list in ascending and descending order and every checker must report the same diagnostics.",
-         "go/types objects are compared by identity (their interiors are lazily completed by go/types itself); FileSet.Base is excluded because harness workers share one file set; every field of linter.Context, exported or not, is walked by reflection (no hand-written field list); package-level variables of go-critic are not fingerprinted (covered indirectly by the order leg and by C03/C04).",
+         "go/types objects are compared by identity (their interiors are lazily completed by go/types itself); FileSet.Base is excluded because harness workers share one file set; every field of linter.Context, exported or not, is walked by reflection (no hand-written field list); the registry fingerprint is also taken around construction and use of each parameterised checker for every value of a small domain; package-level variables of go-critic are not fingerprinted (covered indirectly by the order leg and by C03/C04).",
          "DESIGN.md section 3, C05"),
  "C18": ("fault_enumeration",
          "exhaustive enumeration of fault sequences (rule files in every failure class, in every order up to a length) x failOn policy x legacy flag x group filters on the real loader, against a reference model of the stated policy",
@@ -51,7 +51,7 @@ CHECKS = {
          "DESIGN.md section 3, C18"),
  "C19": ("fault_enumeration",
          "exhaustive enumeration of invalid configurations x front-ends x package counts, of analyzer-pass histories on the real init latch, and of load-fault target sets; oracle: clean non-zero exit with a naming message, never a panic, nothing analysed after failed init, outcome independent of package count",
-         "17 invalid configurations (6 malformed -go values, unknown failOn alone and next to a valid value, rule pattern without match alone and before/after a matching one, two empty selections, two unparsable parameter values, unknown flag, unknown parameter) x the 4 real binaries x 1..3 packages; the analyzer's cached-configuration latch explored as an explicit state machine: all sequences of <=4 passes over {valid, valid-2, bad -go, empty selection, bad rule pattern} from the reset latch on the real prepareGocritic/runAnalyzer (driven through Analyzer.Run, latch reset/read by an overlay-added hook file); target sets of <=2 packages over {ok, syntax error, type error, unresolved import, mixed package clauses, import cycle, only _test files, empty dir} x 4 binaries x enable-all; ill-typed 1-deviation variants of the examples analysed in-process by all checkers.",
+         "19 invalid configurations (6 malformed -go values, unknown failOn alone and next to a valid value, rule pattern without match alone and before/after a matching one, a failing dynamic-rules checker next to a healthy checker, two empty selections, two unparsable parameter values, unknown flag, unknown parameter) x the 4 real binaries x 1..3 packages; the analyzer's cached-configuration latch explored as an explicit state machine: all sequences of <=4 passes over {valid, valid-2, bad -go, empty selection, failing dynamic-rules checker alone and next to a healthy checker, bad rule pattern} from the reset latch on the real prepareGocritic/runAnalyzer (driven through Analyzer.Run, latch reset/read by an overlay-added hook file); target sets of <=2 packages over {ok, syntax error, type error, unresolved import, mixed package clauses, import cycle, only _test files, empty dir} x 4 binaries x enable-all; ill-typed 1-deviation variants of the examples analysed in-process by all checkers.",
          "A faulty package that is analysed with zero diagnostics and exit 0 is accepted (the property allows 'analysed as far as its type information allows').",
          "DESIGN.md section 3, C19"),
  "C13": ("exploration",
@@ -101,7 +101,7 @@ CHECKS = {
          "DESIGN.md section 3, C12"),
  "C10": ("exploration",
          "bounded-exhaustive enumeration of rewrite templates over operand alphabets; every proposed rewrite is executed against the original on full argument grids by the real toolchain (result, panic and side-effect trace compared)",
-         "About 300 template functions cover every checker the property lists: negated comparisons x 6 operators x {int, float64, named float, string}; range folds with decimal/octal/0o/hex literals x {int, uint8, float64, named float}; +1/-1 removal in 8 shapes x 4 numeric types; compound assignment for every operator, type and operand order; len/empty-string tests on string and named string; bytes/string comparisons; unslice; underef (field, method, array index); *new(T) over 14 types; lambda and deferred-lambda removal incl. callees reassigned between creation and use; Sprint removal incl. nil Stringer pointers; value swap incl. temporary used afterwards and impure indices; switch true; Yoda incl. impure operands; 15 strings/bytes predicates and wrappers; three Index-to-Cut shapes; 11 time-unit expressions. For each rewrite the real checker proposes (fix or quoted), the function is cloned with the rewrite applied; both run over the product of the parameter grids (ints -2..11, floats incl. NaN/-0/+-Inf, strings incl. multi-byte separators and absent separators, nil/non-nil pointers) and must produce identical transcripts.",
+         "About 1100 template functions cover every checker the property lists: negated comparisons x 6 operators x {int, float64, named float, string}; all 36 pairs of comparison operators on the same operands joined by || and && (against each other, swapped, against a constant); range folds with decimal/octal/0o/hex literals x {int, uint8, float64, named float}; +1/-1 removal in 8 shapes x 4 numeric types; compound assignment for every operator, type and operand order; len/empty-string tests on string and named string; bytes/string comparisons; unslice; underef (field, method, array index); *new(T) over 14 types; lambda and deferred-lambda removal incl. callees reassigned between creation and use; Sprint removal incl. nil Stringer pointers; value swap incl. temporary used afterwards and impure indices; switch true; Yoda incl. impure operands; 15 strings/bytes predicates and wrappers; three Index-to-Cut shapes; 11 time-unit expressions. For each rewrite the real checker proposes (fix or quoted), the function is cloned with the rewrite applied; both run over the product of the parameter grids (ints -2..11, floats incl. NaN/-0/+-Inf, strings incl. multi-byte separators and absent separators, nil/non-nil pointers) and must produce identical transcripts.",
          "Integer grids stay away from overflow (the property allows that assumption). Rewrites that do not compile in place are C09's subject. Checkers outside the property's list are ignored.",
          "DESIGN.md section 3, C10"),
 }
